@@ -2,6 +2,8 @@
 // generated in a fixed order; nothing is sampled.
 
 static const uint32_t OFFS4[5] = { 0, 4, 0x1000, 0xFFFFF000u, 0xFFFFFFFCu };		// multiples of 4 (and of 2, 1)
+static const uint32_t OFFS2[2] = { 2, 0xFFFFFFFEu };	// ARM-Thumb, RISC-V: legal offsets that are not multiples of 4
+static const uint32_t OFFS1[2] = { 1, 0xFFFFFFFFu };	// x86: any offset is legal
 static const uint32_t OFFS16[5] = { 0, 16, 0x1000, 0xFFFFF000u, 0xFFFFFFF0u };		// IA-64: multiples of 16
 
 // boundary set of a w-bit field: 0, +-1, 2^k, 2^k +- 1, -(2^k), -(2^k) +- 1, max, max - 1 (two's complement in w bits)
@@ -92,6 +94,7 @@ static void fam_words(int kind) {
 			unsigned lv = thorough || ((s == 0 || s == 4) && converts) || (s == 0 && a == 0) ? LV_CUTS : converts ? LV_STEPS : 0;
 			do_case(f, OFFS4[s], b, 8 + a, lv);
 		}
+		if (kind == RB_ARMTHUMB || kind == RB_RISCV) for (int s = 0; s < 2; s++) do_case(f, OFFS2[s], b, 8 + a, converts ? (s == 0 ? LV_CUTS : LV_STEPS) : 0);
 		if (h_expired()) return;
 	}
 	// truncated buffers: every length 0..7 of word+word for the extreme displacement values
@@ -192,6 +195,7 @@ static void fam_x86(void) {
 				if (len == maxlen && s != 0 && s != 4) continue;
 				do_case(f, OFFS4[s], b, (size_t)len, s == 0 || (s == 4 && len < maxlen) ? LV_CUTS : (len < maxlen || thorough) ? LV_STEPS : 0);
 			}
+			if (len < maxlen) for (int s = 0; s < 2; s++) do_case(f, OFFS1[s], b, (size_t)len, s == 0 ? LV_STEPS : 0);
 			int k = len - 1; while (k >= 0 && ++d[k] == 5) d[k--] = 0;
 			if (k < 0) break;
 		}
@@ -313,6 +317,7 @@ static void fam_riscv(void) {
 				if (!thorough && tl >= 2 && s != 0 && s != 3) continue;	// quick: other tails at two offsets
 				do_case(f, OFFS4[s], b, n, lv);
 			}
+			for (int s = 0; s < 2; s++) { if (!thorough && (tl >= 2 || s)) continue; do_case(f, OFFS2[s], b, n, tl < 2 && s == 0 ? LV_CUTS : LV_STEPS); }
 		}
 		if (h_expired()) return;
 	}
